@@ -35,6 +35,15 @@ void ptg_rt_write(parsec_task_t *t, int flow, void *ptr);
 #define PTG_READ(T, I, P)  ptg_rt_read((parsec_task_t *)(T), (I), (const void *)(P))
 #define PTG_WRITE(T, I, P) ptg_rt_write((parsec_task_t *)(T), (I), (void *)(P))
 
+/* C16: order in which the generated startup functions create the startup tasks.  Compiling the generated
+ * file with -DPTG_RT_TRACE_STARTUP wraps the runtime call every created startup task goes through
+ * (after its prototype has been seen in parsec_internal.h; a macro is not expanded inside itself). */
+void ptg_rt_startup_mark(parsec_task_t *t);
+#if defined(PTG_RT_TRACE_STARTUP)
+#define parsec_dependencies_mark_task_as_startup(T, ES) \
+    (ptg_rt_startup_mark((parsec_task_t *)(T)), parsec_dependencies_mark_task_as_startup((parsec_task_t *)(T), (ES)))
+#endif
+
 /* MPI datatype of one element (PTG_RT_ELT_BYTES contiguous bytes), created once by the driver */
 parsec_datatype_t ptg_rt_elt_type(void);
 
